@@ -756,3 +756,201 @@ theorem applyOp_conserves (t : Track) (op : Track.Op) (t' : Track) (r : String) 
         (rw [← h.1]; exact ⟨hI, by simp [written]⟩)
 
 end Ctrmml.TrackBuilder
+
+namespace Ctrmml.TrackBuilder
+open Ctrmml.Tables Ctrmml.Lexer
+
+/-! ### call sequences -/
+
+/-- run a sequence of API calls (stops at an undefined-behaviour site) -/
+def applyOps : Track → List Track.Op → Except Err Track
+  | t, [] => .ok t
+  | t, op :: ops =>
+    match t.applyOp op with
+    | .ok (t', _) => applyOps t' ops
+    | .error e => .error e
+
+/-- `StepOk` at every call of the run -/
+def StepsOk : Track → List Track.Op → Prop
+  | _, [] => True
+  | t, op :: ops =>
+    StepOk t op ∧
+    match t.applyOp op with
+    | .ok (t', _) => StepsOk t' ops
+    | .error _ => True
+
+/-- Σ written durations − Σ reverse-rest amounts along the run -/
+def writtenSum : Track → List Track.Op → Int
+  | _, [] => 0
+  | t, op :: ops =>
+    written t op +
+    match t.applyOp op with
+    | .ok (t', _) => writtenSum t' ops
+    | .error _ => 0
+
+theorem applyOps_conserves (ops : List Track.Op) (t t' : Track) (hI : t.Inv) (hok : StepsOk t ops)
+    (h : applyOps t ops = .ok t') : t'.Inv ∧ (t'.total : Int) = t.total + writtenSum t ops := by
+  induction ops generalizing t with
+  | nil =>
+    simp only [applyOps, Except.ok.injEq] at h
+    subst h
+    exact ⟨hI, by simp [writtenSum]⟩
+  | cons op ops ih =>
+    unfold applyOps at h
+    unfold StepsOk at hok
+    unfold writtenSum
+    cases ha : t.applyOp op with
+    | error e => rw [ha] at h; cases h
+    | ok pr =>
+      obtain ⟨u, r⟩ := pr
+      rw [ha] at h hok
+      simp only [] at h hok ⊢
+      have h1 := applyOp_conserves t op u r hI hok.1 ha
+      have h2 := ih u h1.1 hok.2 h
+      exact ⟨h2.1, by omega⟩
+
+end Ctrmml.TrackBuilder
+
+namespace Ctrmml.TrackBuilder
+
+instance (t : Track) (op : Track.Op) : Decidable (StepOk t op) := by
+  cases op <;> unfold StepOk <;> infer_instance
+
+instance decStepsOk : (t : Track) → (ops : List Track.Op) → Decidable (StepsOk t ops)
+  | _, [] => isTrue trivial
+  | t, op :: ops =>
+    match h : t.applyOp op with
+    | .ok (t', r) =>
+      match (inferInstance : Decidable (StepOk t op)), decStepsOk t' ops with
+      | isTrue a, isTrue b => isTrue (by unfold StepsOk; rw [h]; exact ⟨a, b⟩)
+      | isFalse a, _ => isFalse (by unfold StepsOk; exact fun x => a x.1)
+      | _, isFalse b => isFalse (by unfold StepsOk; rw [h]; exact fun x => b x.2)
+    | .error e =>
+      match (inferInstance : Decidable (StepOk t op)) with
+      | isTrue a => isTrue (by unfold StepsOk; rw [h]; exact ⟨a, trivial⟩)
+      | isFalse a => isFalse (by unfold StepsOk; exact fun x => a x.1)
+
+end Ctrmml.TrackBuilder
+
+namespace Ctrmml.TrackBuilder
+open Ctrmml.Tables Ctrmml.Lexer
+
+@[simp] theorem flip_lastNotePos (t : Track) : t.flipShuffle.lastNotePos = t.lastNotePos := rfl
+@[simp] theorem flip_revEvents (t : Track) : t.flipShuffle.revEvents = t.revEvents := rfl
+@[simp] theorem flip_reference (t : Track) : t.flipShuffle.reference = t.reference := rfl
+@[simp] theorem flip_onTime (t : Track) (d : UInt16) : t.flipShuffle.onTime d = t.onTime d := rfl
+@[simp] theorem flip_offTime (t : Track) (d : UInt16) : t.flipShuffle.offTime d = t.offTime d := rfl
+
+/-- `add_tie`, case by case -/
+theorem addTie_cases (t : Track) (d : UInt16) :
+    (t.lastNotePos = none →
+      (t.addTie d).revEvents =
+        { type := ev_TIE, param := 0, on := t.onTime (t.effDur d), off := t.offTime (t.effDur d), ref := t.reference } :: t.revEvents) ∧
+    (∀ last rest, t.revEvents = last :: rest → t.lastNotePos = some rest.length →
+      (t.addTie d).revEvents =
+        { last with on := t.onTime (last.on + last.off + t.effDur d), off := t.offTime (last.on + last.off + t.effDur d) } :: rest ∧
+      (t.addTie d).lastNotePos = some rest.length) ∧
+    (∀ p last, t.lastNotePos = some p → p + 1 < t.revEvents.length →
+      t.revEvents[t.revEvents.length - 1 - p]? = some last →
+      (t.onTime (last.on + last.off + t.effDur d) > last.on + last.off →
+        (t.addTie d).revEvents =
+          { type := ev_TIE, param := 0, on := t.onTime (last.on + last.off + t.effDur d) - (last.on + last.off),
+            off := t.offTime (last.on + last.off + t.effDur d), ref := t.reference } ::
+            t.revEvents.modify (t.revEvents.length - 1 - p) (fun e => { e with on := last.on + last.off, off := 0 }) ∧
+        (t.addTie d).lastNotePos = some t.revEvents.length) ∧
+      (¬ t.onTime (last.on + last.off + t.effDur d) > last.on + last.off →
+        (t.addTie d).revEvents =
+          { type := ev_REST, param := 0, on := 0, off := t.effDur d, ref := t.reference } ::
+            t.revEvents.modify (t.revEvents.length - 1 - p)
+              (fun e => { e with on := t.onTime (last.on + last.off + t.effDur d),
+                                 off := last.on + last.off - t.onTime (last.on + last.off + t.effDur d) }) ∧
+        (t.addTie d).lastNotePos = none)) := by
+  refine ⟨?_, ?_, ?_⟩
+  · intro h
+    rw [addTie_eq]; unfold tieOn
+    simp only [flip_lastNotePos, h]
+    rfl
+  · intro last rest hl hp
+    rw [addTie_eq]; unfold tieOn
+    simp only [flip_lastNotePos, flip_revEvents, hp, hl, List.length_cons]
+    simp [Track.modifyAt, hl]
+    have hn : ¬ rest.length + 1 ≤ rest.length := by omega
+    simp [hn, hp]
+  · intro p last hp hlt hlast
+    have hne : ¬ p ≥ t.revEvents.length := by omega
+    have hne2 : ¬ p + 1 = t.revEvents.length := by omega
+    constructor
+    · intro hgt
+      rw [addTie_eq]; unfold tieOn
+      simp only [flip_lastNotePos, flip_revEvents, hp, hne, hne2, hlast, if_false, flip_onTime, hgt, if_true]
+      constructor <;> rfl
+    · intro hngt
+      rw [addTie_eq]; unfold tieOn
+      simp only [flip_lastNotePos, flip_revEvents, hp, hne, hne2, hlast, if_false, flip_onTime, hngt]
+      constructor <;> rfl
+
+end Ctrmml.TrackBuilder
+
+namespace Ctrmml.TrackBuilder
+open Ctrmml.Tables Ctrmml.Lexer
+
+/-- events the backward walks of `add_slur` / `reverse_rest` step over -/
+def Transparent (e : BEvent) : Prop :=
+  e.type ≠ ev_NOTE ∧ e.type ≠ ev_TIE ∧ e.type ≠ ev_REST ∧ e.type ≠ ev_SEGNO ∧ e.type ≠ ev_LOOP_END
+
+theorem slurBack_walk (pre : List BEvent) (e : BEvent) (rest : List BEvent) (hpre : ∀ x ∈ pre, Transparent x) :
+    (e.type = ev_NOTE ∨ e.type = ev_TIE →
+      Track.slurBack (pre ++ e :: rest) = some (pre ++ { e with on := e.on + e.off, off := 0 } :: rest)) ∧
+    (e.type = ev_REST ∨ e.type = ev_SEGNO ∨ e.type = ev_LOOP_END → Track.slurBack (pre ++ e :: rest) = none) := by
+  induction pre with
+  | nil =>
+    constructor
+    · intro h; simp [Track.slurBack, h]
+    · intro h
+      have h1 : ¬ (e.type = ev_NOTE ∨ e.type = ev_TIE) := by
+        rcases h with h | h | h <;> rw [h] <;> decide
+      simp [Track.slurBack, h1, h]
+  | cons x xs ih =>
+    have hx := hpre x (by simp)
+    have ih' := ih (fun y hy => hpre y (by simp [hy]))
+    have h1 : ¬ (x.type = ev_NOTE ∨ x.type = ev_TIE) := fun h => by rcases h with h | h; exact hx.1 h; exact hx.2.1 h
+    have h2 : ¬ (x.type = ev_REST ∨ x.type = ev_SEGNO ∨ x.type = ev_LOOP_END) := fun h => by
+      rcases h with h | h | h; exact hx.2.2.1 h; exact hx.2.2.2.1 h; exact hx.2.2.2.2 h
+    constructor
+    · intro h
+      simp only [List.cons_append, Track.slurBack, h1, h2, if_false, ih'.1 h, Option.map_some]
+    · intro h
+      simp only [List.cons_append, Track.slurBack, h1, h2, if_false, ih'.2 h, Option.map_none]
+
+theorem rrBack_walk (d : UInt16) (pre : List BEvent) (e : BEvent) (rest : List BEvent) (hpre : ∀ x ∈ pre, Transparent x) :
+    (e.type = ev_NOTE ∨ e.type = ev_TIE ∨ e.type = ev_REST →
+      Track.rrBack d (pre ++ e :: rest) =
+        if d > e.off then
+          (if d - e.off < e.on then (.done, pre ++ { e with off := 0, on := e.on - (d - e.off) } :: rest)
+           else (.lengthError, pre ++ e :: rest))
+        else (.done, pre ++ { e with off := e.off - d } :: rest)) ∧
+    (e.type = ev_SEGNO ∨ e.type = ev_LOOP_END → Track.rrBack d (pre ++ e :: rest) = (.domainError, pre ++ e :: rest)) := by
+  induction pre with
+  | nil =>
+    constructor
+    · intro h
+      simp only [List.nil_append, Track.rrBack, h, if_true]
+    · intro h
+      have h1 : ¬ (e.type = ev_NOTE ∨ e.type = ev_TIE ∨ e.type = ev_REST) := by
+        rcases h with h | h <;> rw [h] <;> decide
+      simp [Track.rrBack, h1, h]
+  | cons x xs ih =>
+    have hx := hpre x (by simp)
+    have ih' := ih (fun y hy => hpre y (by simp [hy]))
+    have h1 : ¬ (x.type = ev_NOTE ∨ x.type = ev_TIE ∨ x.type = ev_REST) := fun h => by
+      rcases h with h | h | h; exact hx.1 h; exact hx.2.1 h; exact hx.2.2.1 h
+    have h2 : ¬ (x.type = ev_SEGNO ∨ x.type = ev_LOOP_END) := fun h => by
+      rcases h with h | h; exact hx.2.2.2.1 h; exact hx.2.2.2.2 h
+    constructor
+    · intro h
+      simp only [List.cons_append, Track.rrBack, h1, h2, if_false, ih'.1 h]
+      split <;> (try split) <;> rfl
+    · intro h
+      simp only [List.cons_append, Track.rrBack, h1, h2, if_false, ih'.2 h]
+
+end Ctrmml.TrackBuilder
